@@ -216,7 +216,7 @@ def gen(rnd, *, core=False, res_choices=(60, 60, 30, 15), subslot=True, alap=Non
         if leaves and rnd.random() < 0.4:
             lv = []
             for _ in range(rnd.randint(1, 3)):
-                s = base + timedelta(days=rnd.randrange(0, max(2, min(14, span_days))))
+                s = base + timedelta(days=rnd.randrange(-2, max(2, min(14, span_days))))   # may begin before the project start
                 if single_day_leaves and rnd.random() < 0.35:
                     lv.append((s, None))
                 else:
